@@ -273,6 +273,15 @@ class AsyncFIXConnection:
                         "Initiator is waiting for Logon() response, you must not send"
                         " any additional messages before acceptor responce."
                     )
+            elif (
+                self._connection_state == ConnectionState.LOGON_INITIAL_RECV
+                and msg.msg_type != FMsg.LOGON
+                and msg.msg_type != FMsg.LOGOUT
+            ):
+                raise FIXConnectionError(
+                    "Acceptor has not confirmed Logon() yet, you must not send"
+                    " any additional messages before Logon() response."
+                )
 
         if msg.msg_type == FMsg.TESTREQUEST and self._test_req_id is None:
             raise FIXConnectionError(
